@@ -629,6 +629,9 @@ func (fc *FuncCtx) loopPos(h *ssa.BasicBlock) token.Pos {
 			if _, ok := in.(*ssa.DebugRef); ok {
 				continue
 			}
+			if _, ok := in.(*ssa.Phi); ok {
+				continue // a phi carries the position of the variable's declaration
+			}
 			if p := in.Pos(); p.IsValid() && p < best {
 				best = p
 			}
@@ -1063,6 +1066,14 @@ func (fc *FuncCtx) enterLoop(li *loopInfo, b *ssa.BasicBlock, pre *State, reach 
 	{
 		env := fc.envFor(pre, fc.loopNames(li, entryPhi))
 		env.iter = iterOf(entryPhi)
+		// definitional unfoldings are valid in every state: also available for the entry check
+		for i, c := range lc.Unfold {
+			var t string
+			if err := catchTr(fmt.Sprintf("%s %s unfold %d", fc.fnName, label, i), func() { t = env.trBool(c.E) }); err != nil {
+				panic(trErr(err.Error()))
+			}
+			q.assume(fmt.Sprintf("(=> %s %s)", reach, t))
+		}
 		for i, c := range lc.Invariants {
 			var t string
 			if err := catchTr(fmt.Sprintf("%s %s invariant %d", fc.fnName, label, i), func() { t = env.trBool(c.E) }); err != nil {
